@@ -16,6 +16,8 @@ type Node struct {
 	B []int  `json:"b,omitempty"`
 	O int    `json:"o,omitempty"`
 	A []int  `json:"a,omitempty"`
+	// X: bytes kept behind a constant in its backing array (constant made by narrowing a wider one).
+	X []int `json:"x,omitempty"`
 }
 
 // Dag hash-conses expressions by structure. Indices are 1-based.
@@ -112,7 +114,12 @@ func Build(nodes []Node) []expr.Expr {
 		w := expr.Width(n.W)
 		switch n.K {
 		case "c":
-			e = expr.NewConst(bytesOf(n.B), w)
+			if len(n.X) > 0 {
+				wide := expr.NewConst(append(bytesOf(n.B), bytesOf(n.X)...), w+expr.Width(len(n.X)))
+				e = wide.WithWidth(w)
+			} else {
+				e = expr.NewConst(bytesOf(n.B), w)
+			}
 		case "r":
 			e = expr.NewRegLoad(expr.NewKey(n.N), w)
 		case "b":
